@@ -57,8 +57,8 @@ func (s *Sched) here() string {
 			continue
 		}
 		ps := s.ex.fset.Position(f.pos)
-		if i := strings.Index(ps.Filename, "/repo/"); i >= 0 {
-			return fmt.Sprintf("%s:%d", ps.Filename[i+6:], ps.Line)
+		if strings.HasPrefix(ps.Filename, repoDir+"/") {
+			return fmt.Sprintf("%s:%d", ps.Filename[len(repoDir)+1:], ps.Line)
 		}
 	}
 	return ""
